@@ -212,6 +212,10 @@ fn templates() -> Vec<Tpl> {
     add("def0-call2", "src-later", &r, &[": w1 {A}^@ ;", "1 drop", " \n  w1"], None, None, Src(0), 2);
     add("def0-def1-call2", "src-later", &r, &[": w1 {A}^@ ;", "\n\n: w2 2 0 do w1 loop ;", "1 w2"], None, None, Src(0), 2);
     add("def0-call2-layout-in-caller", "src-later", &r, &[": w1 {A}@ ;\n", "\n: w2 w1 ;", "^w2"], None, None, Src(0), 2);
+    // a user-defined immediate word defined by an earlier source fails while a later source is being built
+    add("imm0-use1", "src-later", &r, &[": w1 immediate 1 drop {A}^@ ;", "4 drop\nw1 5"], None, None, Src(0), 1);
+    add("imm0-use1-in-def", "src-later", &r, &["\n: w1 immediate {A}^@ ;", "4 drop\n: f 5 w1 ;"], None, None, Src(0), 1);
+    add("imm1-use2", "src-later", &r, &["1 var q", ": w1 immediate q drop {A}^@ ;", ": f\n w1 ;"], None, None, Src(1), 2);
     add("def1-call2", "src-later", &r, &["1 var q", "\t: w1 q {A}^@ ;", "w1"], None, None, Src(1), 2);
     add("top-src2", "src-later", &r, &["1 var q", ": w q ;", "w drop {A}^@"], None, None, Src(2), 2);
     add("file-top", "include", &r, &["include \"{F}\""], Some("1 drop {A}^@ 2 drop"), None, File, 0);
